@@ -494,7 +494,12 @@ class Interp:
                 path = path + (e["i"],)
             elif k == "downcast":
                 path = path + (("dc", e["variant"]),)
-            elif k in ("index", "constindex", "subslice"):
+            elif k == "index":
+                iv = self.concretize(st.heap.get((frame.id, e["local"]), Top("?")), st)
+                path = path + ("[%d]" % iv.v if isinstance(iv, Const) and isinstance(iv.v, int) else "[]",)
+            elif k == "constindex":
+                path = path + ("[%s%d]" % ("-" if e.get("from_end") else "", e["offset"]),)
+            elif k == "subslice":
                 path = path + ("[]",)
             else:
                 pass
@@ -508,8 +513,14 @@ class Interp:
         base = st.heap.get(addr)
         if base is None:
             return Top("uninit:%s" % (addr,))
-        if "[]" in path:
-            return Top("elem")
+        ix = [i for i, p in enumerate(path) if isinstance(p, str) and p.startswith("[")]
+        if ix:
+            try:
+                cont = self.get_at(base, path[:ix[0]])
+            except Infeasible:
+                cont = None
+            lab = cont.label if isinstance(cont, Top) else (addr if isinstance(addr, str) else "elem")
+            return Top("%s%s" % (lab, path[ix[0]]) if path[ix[0]] != "[]" else "elem")
         return self.get_at(base, path)
 
     def write_place(self, frame, place, value, st):
@@ -518,8 +529,8 @@ class Interp:
             st.effect(("write-unknown-pointer", frame.body.path))
             return
         addr, path = r
-        if "[]" in path:
-            st.effect(("write-elem", self.addr_label(addr), self.path_names(st, addr, path)))
+        if any(isinstance(p, str) and p.startswith("[") for p in path):
+            st.effect(("write-elem", self.addr_label(addr), self.path_names(st, addr, path), self.abstract(value, st)))
             return
         base = st.heap.get(addr, Top("uninit"))
         # materialise an unknown aggregate when a field of it is written
@@ -566,8 +577,8 @@ class Interp:
         for p in path:
             if isinstance(p, tuple):
                 continue
-            if p == "[]":
-                names.append("[]")
+            if isinstance(p, str) and p.startswith("["):
+                names.append(p)
                 v = None
                 continue
             nm = str(p)
@@ -644,6 +655,16 @@ class Interp:
                     self.write_place(f, s["place"], val, st)
             t = b["term"]
             if t["k"] == "goto":
+                bi = t["target"]
+                continue
+            if t["k"] == "call" and t.get("target") is not None:
+                # const fn call inside a promoted constant: keep it as a symbolic node fn(args)
+                fo = t["func"]
+                name = last_segment(fo["fn"].get("rpath") or fo["fn"]["path"]) if fo.get("k") == "const" and "fn" in fo else "?"
+                owner_name = (fo["fn"].get("rpath") or fo["fn"]["path"]).split("::")[-2] if fo.get("k") == "const" and "fn" in fo else ""
+                owner_name = strip_generics(owner_name)
+                argv = [self.operand(f, a, st) for a in t["args"]]
+                self.write_place(f, t["dest"], Adt("%s::%s" % (owner_name, name), 0, argv), st)
                 bi = t["target"]
                 continue
             break
